@@ -21,7 +21,9 @@ RULE = (
     "FeatureNotImplementedError and the same schema without the keyword must parse. sub-check B: "
     "cyclic documents (self reference, mutual, cycles of length 3-8, back edge in any interpreted "
     "position, every node a real object/array schema) through statham.__main__.main: must raise "
-    "FeatureNotImplementedError. non-trivial = injection depth >=1 or cycle length >=2; distinct = "
+    "FeatureNotImplementedError. sub-check C: the same injection into the root file of a multi-file "
+    "document (root tree or its definitions, never next to a $ref), through main(): refused with the "
+    "keyword, generated without it. non-trivial = injection depth >=1 or cycle length >=2; distinct = "
     "canon(case)"
 )
 ASSUMPTIONS = [
@@ -132,9 +134,63 @@ def cycles(draw):
     return {"mode": "cycle", "files": {"a.json": doc}, "length": n}
 
 
+@st.composite
+def doc_injections(draw):
+    """Unsupported keyword somewhere in the ROOT FILE of a multi-file document, through main()."""
+    doc = draw(docs.documents(docs.DCfg()))
+    root = doc["files"][doc["root"]]
+    pos = [p for p in positions(root) if "$ref" not in get_at(root, p)]
+    path = list(draw(st.sampled_from(pos)))
+    kw = draw(st.sampled_from(UNSUPPORTED))
+    value = {"x": {}} if kw == "$defs" else draw(st.sampled_from([{}, {"type": "string"}, True, False]))
+    return {"mode": "inject-doc", "files": doc["files"], "root": doc["root"], "path": path, "keyword": kw,
+            "value": value}
+
+
+def check_doc_injection(case, stats):
+    files = copy.deepcopy(case["files"])
+    fails = []
+
+    def run(fs):
+        try:
+            docs.generate_module(copy.deepcopy(fs), case["root"])
+            return "generated"
+        except FeatureNotImplementedError:
+            return "refused"
+        except SchemaParseError as exc:
+            return "other-parse-error:" + type(exc).__name__
+        except RecursionError:
+            return "recursion"
+        except Exception as exc:  # noqa: BLE001
+            if observe.statham_frame(exc) == "?":
+                return "dependency-error"
+            return "crash:" + type(exc).__name__
+
+    clean = run(files)
+    get_at(files[case["root"]], case["path"])[case["keyword"]] = copy.deepcopy(case["value"])
+    dirty = run(files)
+    if "dependency-error" in (clean, dirty) or "recursion" in (clean, dirty):
+        stats.inconclusive["dependency-or-recursion"] += 1
+        return []
+    if dirty == "generated":
+        fails.append({"sub": "inject-doc", "kind": "unsupported-keyword-silently-generated",
+                      "keyword": case["keyword"], "path": case["path"]})
+    elif dirty != "refused":
+        fails.append({"sub": "inject-doc", "kind": "wrong-error:" + dirty, "keyword": case["keyword"], "path": case["path"]})
+    if clean != "generated":
+        fails.append({"sub": "inject-doc", "kind": "document-without-the-part-not-generated:" + clean})
+    in_defs = case["path"][:1] == ["definitions"]
+    stats.case(canon([case["files"], case["path"], case["keyword"]]), len(case["path"]) >= 1,
+               ["doc-injection", "doc-pos:" + ("definitions" if in_defs else "root-tree"), "kw:" + case["keyword"]],
+               sample={"files": files, "path": case["path"], "keyword": case["keyword"]})
+    return fails
+
+
 def predicate(case, stats):
     if case["mode"] == "cycle":
         return check_cycle(case, stats)
+    if case["mode"] == "inject-doc":
+        return check_doc_injection(case, stats)
     schema = case["schema"]
     fails = []
     bad = copy.deepcopy(schema)
@@ -208,5 +264,5 @@ replay_predicate = predicate
 
 
 def run_shard(ctx, stats):
-    strat = st.one_of(injections(), injections(), injections(), cycles())
+    strat = st.one_of(injections(), injections(), injections(), cycles(), doc_injections())
     return runner.hyp_run(ctx, stats, strat, predicate, BUDGET[ctx.tier])
